@@ -58,6 +58,9 @@ Inductive vbody :=
 | BOpaque.                                        (* anything else: modelled by hand, by name *)
 Inductive concat_kind := ConcatAlias | ConcatCopy | ConcatUnknown.
 Inductive appender_kind := AppIfAbsent | AppAlways | AppUnknown.
+(* what the code does with the scope variable of an iteration once the iteration is over: delete it and put back
+   the binding saved before / delete only / put back only / leave the last element bound *)
+Inductive sv_after := SvDeleteThenRestore | SvDeleteOnly | SvRestoreOnly | SvLeak | SvUnknown.
 
 (* ---- decidable equalities used as table keys ---- *)
 Definition vkind_eqb (a b:vkind) : bool :=
